@@ -18,9 +18,14 @@ structure Sess where
   logOf : String → Option (List String)   -- underlying functions run by one call of U's method
   garbage : List String             -- table members holding an indeterminate (non-null) pointer
   cs : CState String
+  ws : WState Nat := WState.init 0  -- what each wrapper holds; problem data = stamp of the last mutation
+  ectr : Nat := 0                   -- number of mutations so far (the next stamp is ectr + 1)
+  /-- OCP loader: nc, nc_N and what the plug-in's get_D / get_D_N answer (none: table member null) -/
+  proj : Option (Nat × Nat × Option (BoxO Float) × Option (BoxO Float)) := none
 
-instance : Inhabited Sess := ⟨⟨.native, ⟨fun _ => false, fun _ => false, fun _ => false⟩, true,
-  fun _ => some [], [], CState.empty⟩⟩
+instance : Inhabited Sess :=
+  ⟨{ kind := .native, u := { has := fun _ => false, hasProv := fun _ => false, provVal := fun _ => false },
+     m0 := true, logOf := fun _ => some [], garbage := [], cs := CState.empty }⟩
 
 def bitOf (mask : Nat) (i : Nat) : Bool := (mask >>> i) % 2 == 1
 
@@ -59,8 +64,9 @@ def dlNative (t : DLTable) (extra : List String) (tbl : FnTable) (base : String 
   provVal f := (t.native tbl base).provVal f
 
 def versionOf (regfn : String) : VersionSym :=
-  if regfn == "c20_noversion" || regfn == "c20_nosuch" || regfn == "c20_ocp_nosuch" then .missing
-  else if regfn == "c20_badversion" then .mismatch else .good
+  if regfn == "c20_noversion" || regfn == "c20_nosuch" || regfn == "c20_ocp_nosuch" || regfn == "c20_ocp_noversion"
+  then .missing
+  else if regfn == "c20_badversion" || regfn == "c20_ocp_badversion" then .mismatch else .good
 
 def descrOf (file regfn : String) : PluginDescr where
   emptyPath := file == "empty"
@@ -68,13 +74,19 @@ def descrOf (file regfn : String) : PluginDescr where
   versionSym := versionOf regfn
   registerSym := !(regfn == "c20_nosuch" || regfn == "c20_ocp_nosuch")
   abiOk := !(regfn == "c20_badabi" || regfn == "c20_ocp_badabi")
-  exceptionSet := regfn == "c20_throws"
+  exceptionSet := regfn == "c20_throws" || regfn == "c20_ocp_throws"
   hasFunctions := !(regfn == "c20_nofunctions" || regfn == "c20_ocp_nofunctions")
 
 def errName : LoadError → String
   | .invalidArgument => "invalid_argument" | .dlopenFailed => "dlopen" | .missingSymbol => "missing_symbol"
   | .abiMismatch => "abi" | .pluginException => "plugin_exception" | .noFunctions => "no_functions"
   | .functionsNeverAssigned => "functions_never_assigned"
+
+/-- ` regcalls=k`: how often the registration function ran during the load attempt (`-`: the library was
+    never opened) -/
+def regCalls (steps : List LoadStep) (d : PluginDescr) : String :=
+  if d.emptyPath || !d.libLoads then " regcalls=-"
+  else if registerCalled invalidAbiDerivesFromDynamicLoadError steps d then " regcalls=1" else " regcalls=0"
 
 def wrapperOf (s : Sess) : WrapperTable :=
   match s.kind with | .ocp | .dlocp => ocpWrapper | _ => nlpWrapper
@@ -100,19 +112,20 @@ def provBits (s : Sess) : String :=
 
 def joinLog (l : List String) : String := if l.isEmpty then "-" else String.intercalate "," l
 
-/-- one `call w fn`: outcome class, underlying log, counters afterwards -/
-def doCall (s : Sess) (w : Nat) (fn : String) : Sess × String :=
+/-- one `call w fn`: outcome class, underlying log, counters afterwards; the flag says whether functions of
+    the underlying problem ran (then the stamp of the object they ran on is reported) -/
+def doCall (s : Sess) (w : Nat) (fn : String) : Sess × String × Bool :=
   let t := wrapperOf s
   let wn := t.wrap s.u
   let out := if isOcp s then resolveOCP wn.provided fn else resolveNLP wn.provided s.m0 fn
   match out with
-  | .notImpl msg => (s, s!"ni:{msg} log=- cnt={fmtCnt t s.cs w}")
-  | .nullCall => (s, s!"crash log=- cnt={fmtCnt t s.cs w}")
+  | .notImpl msg => (s, s!"ni:{msg} log=- cnt={fmtCnt t s.cs w}", false)
+  | .nullCall => (s, s!"crash log=- cnt={fmtCnt t s.cs w}", false)
   | .calls xs =>
     let entries := xs.filterMap t.find
     let counted := entries.filterMap (·.counter)
     if (s.cs.ptr w).isNone && !counted.isEmpty then
-      (s, "crash log=- cnt=null")
+      (s, "crash log=- cnt=null", false)
     else
       -- underlying functions, in order; a call into an indeterminate pointer crashes
       let logs := entries.map fun e => (e, s.logOf e.callee)
@@ -121,11 +134,31 @@ def doCall (s : Sess) (w : Nat) (fn : String) : Sess × String :=
         | some ls => ls.any (s.garbage.contains ·)
       if bad then
         -- the harness confines the crashing call to a child process: the parent's counters are unchanged
-        (s, s!"crash log=- cnt={fmtCnt t s.cs w}")
+        (s, s!"crash log=- cnt={fmtCnt t s.cs w}", false)
       else
         let cs' := counted.foldl (fun c k => (cstep t.resetKind c (.call w k)).1) s.cs
         let log := logs.flatMap fun (_, l) => l.getD []
-        ({ s with cs := cs' }, s!"ok log={joinLog log} cnt={fmtCnt t cs' w}")
+        ({ s with cs := cs' }, s!"ok log={joinLog log} cnt={fmtCnt t cs' w}", !log.isEmpty)
+
+/-- the C20 OCP plug-in's boxes (`c20o_box(n, tag, lb, ub)` of harness/c20_plugins/c20_math.h) -/
+def pluginBox (n : Nat) (tag : Float) : BoxO Float :=
+  (List.range n).map fun i =>
+    (some (-tag - i.toFloat), if i % 2 == 1 then none else some (tag + 0.5 * i.toFloat))
+
+/-- arguments of an OCP `call` line: a i x u h p M zf -/
+def parseOcpArgs (ts : List String) : Option (Float × List Float) :=
+  Proto.run (do
+    let a ← Proto.flt; let _ ← Proto.nat
+    let _ ← Proto.vec; let _ ← Proto.vec; let _ ← Proto.vec; let _ ← Proto.vec; let _ ← Proto.vec
+    let zf ← Proto.vec
+    pure (a, zf)) ts
+
+/-- which kinds of data a `mutate <what>` can change, per kind of underlying problem -/
+def mutSupported (k : Kind) (what : String) : Bool :=
+  match k with
+  | .native | .functional => what == "C" || what == "D" || what == "const"
+  | .ocp => what == "D" || what == "const"
+  | .dl | .dlocp => false
 
 def required7 : List String := nlpRequired
 
@@ -148,7 +181,7 @@ def newSess (ts : List String) : Option Sess × String :=
     match mask.toNat?, m.toNat?, flags.toNat? with
     | some mask, some m, some flags =>
       match load invalidAbiDerivesFromDynamicLoadError dlNLP.ctor (descrOf file regfn) with
-      | .error e => (none, "err:" ++ errName e)
+      | .error e => (none, "err:" ++ errName e ++ regCalls dlNLP.ctor (descrOf file regfn))
       | .ok warned =>
         -- default-initialised table: a member without `ALPAQA_DEFAULT(nullptr)` is indeterminate
         let noDefault := abiNLP.filter (fun m => !m.hasDefault) |>.map (·.name)
@@ -163,7 +196,7 @@ def newSess (ts : List String) : Option Sess × String :=
         (some { kind := .dl, u := dlNative dlNLP boxConstrDeclared tbl base, m0 := m == 0,
                 logOf := fun f => dlNLP.pluginCalls tbl f,
                 garbage := if dflt then noDefault else [], cs := CState.empty },
-         s!"ok warned={if warned then 1 else 0}")
+         s!"ok warned={if warned then 1 else 0}" ++ regCalls dlNLP.ctor (descrOf file regfn))
     | _, _, _ => (none, "parse-error")
   | ["ocp", _idx, has, prov, pv, nh, nc] =>
     match has.toNat?, prov.toNat?, pv.toNat?, nh.toNat?, nc.toNat? with
@@ -178,7 +211,7 @@ def newSess (ts : List String) : Option Sess × String :=
     match mask.toNat?, nh.toNat?, nc.toNat?, flags.toNat? with
     | some mask, some nh, some nc, some flags =>
       match load invalidAbiDerivesFromDynamicLoadError dlOCP.ctor (descrOf file regfn) with
-      | .error e => (none, "err:" ++ errName e)
+      | .error e => (none, "err:" ++ errName e ++ regCalls dlOCP.ctor (descrOf file regfn))
       | .ok warned =>
         -- flags bit 0 / 1: the plug-in leaves the table member eval_h / eval_h_N null
         let tbl : FnTable := fun f =>
@@ -186,12 +219,18 @@ def newSess (ts : List String) : Option Sess × String :=
           (match idxOf ocpMaskNames f with | some i => bitOf mask i | none => ocpAll.contains f)
         let u := dlNative dlOCP [] tbl (fun _ => true)
         match ocpCtorMissing u.provided nc nh nh with
-        | some x => (none, "err:missing:" ++ x)
+        | some x => (none, "err:missing:" ++ x ++ regCalls dlOCP.ctor (descrOf file regfn))
         | none =>
           (some { kind := .dlocp, u := u, m0 := nc == 0, logOf := fun f => dlOCP.pluginCalls tbl f,
-                  garbage := [], cs := CState.empty }, s!"ok warned={if warned then 1 else 0}")
+                  garbage := [], cs := CState.empty,
+                  proj := some (nc, nc, if tbl "get_D" then some (pluginBox nc 62.0) else none,
+                                if tbl "get_D_N" then some (pluginBox nc 63.0) else none) },
+           s!"ok warned={if warned then 1 else 0}" ++ regCalls dlOCP.ctor (descrOf file regfn))
     | _, _, _, _ => (none, "parse-error")
   | _ => (none, "bad-kind")
+
+def wOutName : WOut Nat → String
+  | .ok => "ok" | .created w => s!"created {w}" | .saw _ => "ok" | .constRef => "const-reference" | .bad => "bad-wrapper"
 
 def c20Step (st : Option Sess) (line : String) : Option Sess × String :=
   match tokens line with
@@ -201,14 +240,35 @@ def c20Step (st : Option Sess) (line : String) : Option Sess × String :=
     | none => (none, "no-session")
     | some s =>
       let t := wrapperOf s
-      let stepC (o : COp String) : Option Sess × String :=
-        let (cs', out) := cstep t.resetKind s.cs o
-        (some { s with cs := cs' }, outName out)
+      -- counter heap and wrapper data advance together (`sysStep`, driven by the generated helper table)
+      let sys (o : SOp Nat String) : Sess × COut × WOut Nat :=
+        let (y, oc, ow) := sysStep wrapHelpers t.resetKind (⟨s.cs, s.ws⟩ : Sys Nat String) o
+        ({ s with cs := y.c, ws := y.w }, oc, ow)
+      let stepC (o : SOp Nat String) : Option Sess × String :=
+        let (s', oc, _) := sys o
+        (some s', outName oc)
+      let helper (byRef : Bool) : String :=
+        (if isOcp s then "ocproblem_with_counters" else "problem_with_counters") ++ (if byRef then "_ref" else "")
       match op, r with
-      | "create", _ => stepC .create
+      | "create", _ => stepC (.create (helper false))
+      | "createref", _ => stepC (.create (helper true))
       | "copy", [w] => (match w.toNat? with | some w => stepC (.copy w) | none => (st, "parse-error"))
       | "decouple", [w] => (match w.toNat? with | some w => stepC (.decouple w) | none => (st, "parse-error"))
       | "reset", [w] => (match w.toNat? with | some w => stepC (.reset w) | none => (st, "parse-error"))
+      | "mutate", what :: _ =>
+        if !mutSupported s.kind what then (st, "unsupported") else
+        let (s', _, ow) := sys (.mutate fun _ => s.ectr + 1)
+        (some { s' with ectr := s.ectr + 1 }, wOutName ow)
+      | "mutatew", w :: what :: _ =>
+        (match w.toNat? with
+         | none => (st, "parse-error")
+         | some w =>
+           if !(w < s.ws.nW) then (st, "bad-wrapper")
+           else if s.ws.held w == some none then (st, "const-reference")
+           else if !mutSupported s.kind what then (st, "unsupported")
+           else
+             let (s', _, ow) := sys (.mutateVia w fun _ => s.ectr + 1)
+             (some { s' with ectr := s.ectr + 1 }, wOutName ow))
       | "cnt", [w] =>
         (match w.toNat? with
          | some w => if w < s.cs.nW then (st, fmtCnt t s.cs w) else (st, "bad-wrapper")
@@ -217,12 +277,24 @@ def c20Step (st : Option Sess) (line : String) : Option Sess × String :=
         (match w.toNat? with
          | some w => if w < s.cs.nW then (st, provBits s) else (st, "bad-wrapper")
          | none => (st, "parse-error"))
-      | "call", w :: fn :: _ =>
+      | "call", w :: fn :: args =>
         (match w.toNat? with
          | some w =>
            if w < s.cs.nW then
-             let (s', o) := doCall s w fn
-             (some s', o)
+             let (s', o, ran) := doCall s w fn
+             -- the stamp of the problem object the evaluation ran on: what wrapper `w` holds
+             let ep := match (wstep s.ws (.call w)).2 with
+               | .saw e => if ran && (s.kind == Kind.native || s.kind == Kind.ocp) then toString e else "-"
+               | _ => "-"
+             let val := match s.proj, parseOcpArgs args with
+               | some (nc, ncN, gD, gDN), some (a, zf) =>
+                 let (D, DN) := dlocpBoxes nc ncN gD gDN
+                 if !o.startsWith "ok " then ""
+                 else if fn == "eval_proj_diff_g" then " val=" ++ fmtV (dlocpProjDiff 2 D DN zf)
+                 else if fn == "eval_proj_multipliers" then " val=" ++ fmtV (dlocpProjMult 2 D DN a zf)
+                 else ""
+               | _, _ => ""
+             (some s', s!"{o} ep={ep}{val}")
            else (st, "bad-wrapper")
          | none => (st, "parse-error"))
       | _, _ => (st, "bad-op")
